@@ -77,7 +77,7 @@ def main():
                        obligations=['core_ranking.compute_expanded_multivalue_features/ensures.indicator_iff_row_contains_token'])
 
     # ------------------------------------------------------------------ sub-features
-    SV = ['a', 'b', 'ab', '', '1', 'x&y', 'AND', 'é']
+    SV = ['a', 'b', 'ab', '', '1', 'x&y', 'AND', 'é', 'a ', 'a\t', ' ', 'b  ']       # values differing only in trailing blanks are different values
     for case in range(60 if quick else 600):
         n = int(rng.integers(1, 8))
         pool = list(rng.choice(SV, size=int(rng.integers(1, 5)), replace=False))
